@@ -100,9 +100,16 @@ Definition contig_no (idx : Z) (s : str) : Z :=
     end
   end.
 
-(* _shorten_ids: f"c{contig_no:05d}_{idstring[:7]}..";  cn is the contig number function *)
+(* _shorten_ids (cn is the contig number function):
+     number = f"{contig_no:05d}"
+     if len(number) > 12: return f"{idstring[:14]}.."
+     return f"c{number}_{idstring[:12 - len(number)]}.."
+   (repair of finding F26 contig_number_overflow: the part kept of the old name shrinks as the number
+   grows, and a number of 13 or more digits, for which 16 characters have no room, is dropped) *)
 Definition shorten (cn : Z -> str -> Z) (idx : Z) (s : str) : str :=
-  [99] ++ pad5 (cn idx s) ++ [95] ++ firstn 7 s ++ [46; 46].
+  let number := pad5 (cn idx s) in
+  if 12 <? zlen number then firstn 14 s ++ [46; 46]
+  else [99] ++ number ++ [95] ++ firstn (12 - length number) s ++ [46; 46].
 
 (* ---------- generate_unique_id ---------- *)
 (* the while loop can run at most len(existing_ids) times *)
@@ -279,22 +286,11 @@ Definition spec_safe (outs : list rec) : bool :=
 Definition spec_short (allow : bool) (outs : list rec) : bool :=
   allow || forallb (fun o => (zlen (r_id o) <=? 16) && (zlen (r_name o) <=? 16)) outs.
 Definition spec_named (outs : list rec) : bool := forallb nonempty_id outs.
-(* the shape of an over-long result of _shorten_ids: c, six or more digits, _, at most 7+2 characters *)
-Definition overflow_shape (s : str) : bool :=
-  match s with
-  | 99 :: r => let '(d, t) := span_digits r in
-               (6 <=? zlen d) && (match t with 95 :: _ => true | _ => false end) && (zlen s <=? zlen d + 11)
-  | _ => false
-  end.
-Definition long_only_overflow (outs : list rec) : bool :=
-  forallb (fun o => ((zlen (r_id o) <=? 16) || overflow_shape (r_id o))
-                    && ((zlen (r_name o) <=? 16) || overflow_shape (r_name o))) outs.
-(* [all; unique; safe; short; original id; named; every over-long id/name has the overflow shape] *)
+(* [all; unique; safe; short; original id; named] *)
 Definition spec_flags (allow : bool) (ins : list (str * str)) (outs : list rec) : list Z :=
   let u := spec_unique outs in let s := spec_safe outs in let h := spec_short allow outs in
   let o := orig_ok ins outs in let n := spec_named outs in
-  eBool (u && s && h && o && n) ++ eBool u ++ eBool s ++ eBool h ++ eBool o ++ eBool n
-  ++ eBool (long_only_overflow outs).
+  eBool (u && s && h && o && n) ++ eBool u ++ eBool s ++ eBool h ++ eBool o ++ eBool n.
 Definition spec_ok (allow : bool) (ins : list (str * str)) (outs : list rec) : bool :=
   spec_unique outs && spec_safe outs && spec_short allow outs && orig_ok ins outs && spec_named outs.
 
@@ -363,7 +359,7 @@ Definition run_C16 (fn : Z) (l : list Z) : list Z :=
       | Some (outs, []) => spec_flags allow ins outs
       | _ => bad_input
       end
-    | Some (_, [1; _]) => [1; 1; 1; 1; 1; 1; 1]     (* the run was rejected *)
+    | Some (_, [1; _]) => [1; 1; 1; 1; 1; 1]     (* the run was rejected *)
     | _ => bad_input
     end
   | 15 => (* the property evaluated on an output of fn 5 *)
